@@ -7,6 +7,9 @@ import ast
 from .model import AnalysisError, body_nodoc
 
 
+# context managers whose __exit__ never swallows an exception (documented behaviour; trusted, DESIGN.md section 4)
+NON_SUPPRESSING = {"open", "h5py.File", "warnings.catch_warnings", "np.errstate", "pathlib.Path.open"}
+
 class Node:
     __slots__ = ("id", "kind", "ast", "stmt", "label")
 
@@ -193,8 +196,11 @@ class CFG:
             self.stmt_node[id(st)] = n
             self._link(preds, n)
             out = self._block(st.body, [n])
-            # contextlib.suppress: body may be left early
-            out.append(n)
+            # a context manager may swallow an exception of its body (contextlib.suppress): the body may be left early - unless
+            # every manager is one that is known to re-raise (files, warning / floating-point-error scopes)
+            if not all(isinstance(it.context_expr, ast.Call) and ast.unparse(it.context_expr.func) in NON_SUPPRESSING
+                       for it in st.items):
+                out.append(n)
             return out
         if isinstance(st, ast.Try):
             tn = self._new("join", None, st, "try")
